@@ -157,8 +157,15 @@ def _is_gambit_frame(frame):
 def _task_thread(sim, task):
 	task.go.acquire()
 
+	lastline = {}
+
 	def local(frame, event, arg):
-		if event == 'line' and task.budget >= 0:
+		if event == 'return':
+			lastline.pop(id(frame), None)
+		elif event == 'line' and task.budget >= 0:
+			if lastline.get(id(frame)) == frame.f_lineno:     # see gvsim.seams.interrupt: resume events are not counted
+				return local
+			lastline[id(frame)] = frame.f_lineno
 			task.budget -= 1
 			if task.budget <= 0 and not sim.aborting:
 				task.state = 'parked'
